@@ -1,7 +1,8 @@
 (* C16 -- configured payload limits are enforced early and never by truncation.
-   Property statements only; proofs live in Proofs/WsRecvLimits.v.  Model: Model/WsRecv.v. *)
+   Property statements only; proofs live in Proofs/WsRecvLimits.v (receive side) and Proofs/WsSendGuard.v (send
+   side).  Models: Model/WsRecv.v, Model/WsSendGuard.v. *)
 From Coq Require Import NArith List Bool.
-From AV Require Import Model.Masker Gen.WsConsts Model.WsRecv Proofs.WsRecvProofs Proofs.WsRecvLimits Proofs.WsRecvOversize Proofs.WsRecvSeq Proofs.WsRecvSeqAll Proofs.WsRecvNoBuf.
+From AV Require Import Model.Masker Gen.WsConsts Model.WsRecv Proofs.WsRecvProofs Proofs.WsRecvLimits Proofs.WsRecvOversize Proofs.WsRecvSeq Proofs.WsRecvSeqAll Proofs.WsRecvNoBuf Model.WsSendGuard Proofs.WsSendGuard.
 Import ListNotations.
 Open Scope N_scope.
 
@@ -84,6 +85,43 @@ Theorem C16_send_refused : forall cf len,
 Proof. exact send_guard_spec. Qed.
 Print Assumptions C16_send_refused.
 
+(* ---- every message-level send API (sendMessage, sendPreparedMessage; doNotCompress either way; with or without
+   permessage-deflate), whatever the connection's compressor has consumed before: the call is refused (nothing is
+   written) exactly when a limit is configured and the octets that WOULD be written -- the compressed message, or the
+   payload as given -- exceed it ---- *)
+Theorem C16_send_refused_all_apis : forall Z z0 deflate cf o op,
+  snd (send_step Z z0 deflate cf o op) = Refused <->
+  0 < maxMsg cf /\ maxMsg cf < measured Z z0 deflate cf o op.
+Proof. exact send_step_refused. Qed.
+Print Assumptions C16_send_refused_all_apis.
+(* ... never by truncation: what is written is the whole message, within a configured limit *)
+Theorem C16_send_whole_or_nothing : forall Z z0 deflate cf o op r d b,
+  snd (send_step Z z0 deflate cf o op) = Wrote r d b ->
+  b = so_bin op /\ r = compressed cf op /\
+  d = (if compressed cf op then snd (deflate (ctx Z z0 o) (so_payload op)) else so_payload op) /\
+  lenN d = measured Z z0 deflate cf o op /\ (0 < maxMsg cf -> lenN d <= maxMsg cf).
+Proof. exact send_step_wrote. Qed.
+Print Assumptions C16_send_whole_or_nothing.
+(* ... and a refusal does not damage the connection: for every compressor / inflater pair obeying the context-takeover
+   laws, every sequence of operations over all APIs, the peer reads exactly the messages that were not refused, in
+   order, unaltered -- in particular every legal message after a refused compressed one *)
+Theorem C16_peer_reads_accepted : forall Z z0 deflate I inflate sync, deflate_laws Z z0 deflate I inflate sync ->
+  forall cf ops o i o' outs, sync (ctx Z z0 o) i -> send_all Z z0 deflate cf o ops = (o', outs) ->
+  peer_read I inflate i outs = accepted ops outs /\ length outs = length ops.
+Proof. exact peer_reads_accepted. Qed.
+Print Assumptions C16_peer_reads_accepted.
+(* the laws are satisfiable by a pair with real context dependence, and the reset is what carries the theorem:
+   without it (the code before upstream eac50546) the peer's inflater fails on the first message after the refusal *)
+Theorem C16_send_laws_inhabited : deflate_laws N 0 toy_deflate N toy_inflate toy_sync.
+Proof. exact toy_laws. Qed.
+Print Assumptions C16_send_laws_inhabited.
+Theorem C16_send_noreset_refuted :
+  let outs := snd (send_all_noreset N 0 toy_deflate (toy_cfg 4) None toy_ops) in
+  outs = [Wrote true [0; 1] true; Refused; Wrote true [2; 2] true] /\
+  peer_read N toy_inflate 0 outs = [Some ([1], true); None].
+Proof. exact noreset_refuted. Qed.
+Print Assumptions C16_send_noreset_refuted.
+
 (* ---- decompression cap.  Full-strength statement [decompress_cap_statement]: for every inflater obeying the zlib
    stream laws, every stream and segmentation, the messages delivered under a cap are a prefix of the true messages
    (never truncated / altered, later ones unaffected).  It is FALSE of the faithful model of compress_deflate.py:
@@ -124,3 +162,12 @@ Example C16_example_at_limit :
 Proof. vm_compute. reflexivity. Qed.
 Example C16_example_send : send_guard lim_cfg OPEN 6 = SendRefused /\ send_guard lim_cfg OPEN 5 = SendOk.
 Proof. split; reflexivity. Qed.
+(* all send APIs on one connection, limit 4, toy compressor: the over-limit message is refused, the compressor starts
+   afresh, the peer reads both legal messages *)
+Example C16_example_send_apis :
+  let ops := [mkSend (ApiMessage false) [1] true; mkSend (ApiPrepared false) [1; 2; 3; 4; 5; 6] true;
+              mkSend (ApiPrepared true) [1; 2; 3; 4; 5] true; mkSend (ApiMessage false) [2] true] in
+  let outs := snd (send_all N 0 toy_deflate (toy_cfg 4) None ops) in
+  outs = [Wrote true [0; 1] true; Refused; Refused; Wrote true [0; 2] true] /\
+  peer_read N toy_inflate 0 outs = [Some ([1], true); Some ([2], true)].
+Proof. vm_compute. split; reflexivity. Qed.
